@@ -11,6 +11,7 @@ not proved (no IEEE printing/parsing formalisation is available).  Real-arithmet
 namespace C15
 open PhenoFile Pheno
 
+/-- reading what was written returns the same rows and the names made unique, for any value codec whose parser inverts its formatter (the bit-exactness of the float codec is what the correspondence run checks) -/
 theorem parse_render {V} (fmt : V → String) (parse : String → Option V) (hc : ∀ v, parse (fmt v) = some v)
     (t : Table V) (hn : t.names ≠ []) :
     (parseT parse (renderT fmt t)).map (fun r => (r.names, r.rows)) = some (uniqNames t.names, t.rows) :=
@@ -22,10 +23,12 @@ theorem bad_rows_skipped_not_shifted {V} (parse : String → Option V) (h : List
     (parseT parse (h :: body)).map (·.rows) = some (body.filterMap (parseRow parse)) :=
   rows_are_the_parsable_rows parse h body hh hl
 
+/-- a parsed row is its own line: the sample is the line's first field and the values are the parses of the line's remaining fields, in order – nothing is taken from a neighbouring line or shifted -/
 theorem parsed_row_is_its_line {V} (parse : String → Option V) (l : List String) (s : String) (vs : List V)
     (h : parseRow parse l = some (s, vs)) : ∃ toks, l = s :: toks ∧ toks.mapM parse = some vs :=
   PhenoFile.parsed_row_is_its_line parse l s vs h
 
+/-- comment lines before the header are ignored -/
 theorem leading_comments_ignored {V} (parse : String → Option V) (c : List String) (lines : List (List String))
     (hc : isComment c = true) : parseT parse (c :: lines) = parseT parse lines :=
   PhenoFile.leading_comments_ignored parse c lines hc
